@@ -487,6 +487,33 @@ impl Prop for LcProp {
                 return;
             }
         }
+        // (3b) two-phase over the suspend/resume alphabet (the table handed to the second call holds merged, resumed
+        // and emptied lifecycles): all splits up to depth 5, the last two splits at depth 6, the last split at depth 7 (thorough 8)
+        let rd2 = ctx.tier.pick(7, 8);
+        for d in 2..=rd2 {
+            // number of trailing split positions explored at this depth
+            let nsplits = if d <= 5 { d } else if d == 6 { 2 } else { 1 };
+            ctx.begin_family("two_phase_resume", &format!("depth={d} sigma={} (suspend/resume + start drift) splits={}", ra.len(), if d <= 5 { "all".to_string() } else { format!("last {nsplits}") }));
+            let mut syms = vec![ra[0]; d];
+            let done = enumr::sequences(d, ra.len(), |ix| {
+                for k in 1..d {
+                    if k + nsplits < d {
+                        continue;
+                    }
+                    if ctx.mine() {
+                        for (i, x) in ix.iter().enumerate() {
+                            syms[i] = ra[*x];
+                        }
+                        run_case(ctx, which, "two_phase_resume", 20_000, &syms, Some(k), 1);
+                    }
+                }
+                !(ctx.sum.evaluations % 4096 == 0 && ctx.out_of_time())
+            });
+            ctx.end_family(done);
+            if !done {
+                return;
+            }
+        }
         // (2) deviation bounded
         let plans: &[(usize, usize)] = ctx.tier.pick(&[(10, 2), (8, 3)][..], &[(10, 3), (12, 3), (9, 4)][..]);
         for &(len, kmax) in plans {
